@@ -17,15 +17,22 @@ open DaeVerif.C19
 
 /-! ## A. Structures: size, offsets, widths, signedness, padding -/
 
+/-- The full statement of the property's quantifier ("stub build types" without an arch restriction):
+every pairing on every GOARCH of the release matrix. NOT proved — it is false for four stub types on
+386/arm/mipsle/mips (Go aligns `uint64` to 4 there; bpf2go output, for which the stub types stand in,
+has explicit pads); the driver lists them (`archreport`). -/
+def layouts_agree_all_arches_full : Prop :=
+  ∀ p ∈ pairing, ∀ a ∈ archesAll, pairOk Gen.cRecs (goRecsFor a) p = true
+
 set_option maxRecDepth 200000 in
-/-- **Headline (layouts).** For every hand-paired (C record, Go type) and every GOARCH on which the
+/-- **Headline (layouts), proved part.** For every hand-paired (C record, Go type) and every GOARCH on which the
 pairing is required (stub types: the nine 64-bit arches; hand-written real-build types and the
 `PARAM` literal: all thirteen arches of the release matrix), and additionally under the
 encoding/binary layout for every type that is marshalled by cilium/ebpf: the sizes are equal, every
 mirrored field has the same offset, element width, element count and signedness class, every named
 Go field is mirrored, and every C member is mirrored or is an alternate union view / padding member
 whose bytes are all covered. -/
-theorem layouts_agree :
+theorem layouts_agree_partial :
     ∀ x ∈ layoutObligations, pairOk Gen.cRecs (goRecsFor x.2) x.1 = true := by decide +kernel
 
 -- non-vacuity: the obligation list is not empty and contains the key type on both the memory and
@@ -271,12 +278,6 @@ theorem connectivity_key_agree (outbound l4proto dport : Nat) (ethIsV4 : Bool) (
   rw [conn_consts_now]
   unfold cConnKey goConnKeyWith goDomainIdx ntOfPacket NetworkType.effDomain
   by_cases hu : l4proto = 17 <;> cases ethIsV4 <;> simp [h53, hu]
-
-theorem goDomainIdx_le (t : NetworkType) : goDomainIdx ⟨6, 2, 0, 1, 2⟩ t ≤ 2 := by
-  unfold goDomainIdx
-  split
-  · simp
-  · split <;> simp
 
 /-- Every slot the control plane can write is inside the map (`max_entries` as the compiler folds it),
 for every outbound id and network type. -/
